@@ -216,6 +216,8 @@ class Writer:
                       ('adjposition', s.get('adjposition'))]
             if self.ge11 and s.get('subcat'):
                 pairs.append(('subcat', ' '.join(s['subcat'])))
+            if self.ge11 and s.get('n') is not None:
+                pairs.append(('n', str(s['n'])))
             pairs += self.meta_pairs(s.get('meta'))
         kids = s.get('relations') or s.get('examples') or s.get('counts')
         if not kids:
@@ -320,6 +322,12 @@ def _mkpkg(dirpath, fname, data, extras=True):
 
 def _tar(dst, src, mode):
     with tarfile.open(dst, mode) as t:
+        if os.path.isfile(src) and not dst.endswith('.txz'):
+            # an archive updated with "tar -rf": the same member twice, the last copy counts
+            old = tarfile.TarInfo(os.path.basename(src))
+            stale = b'<?xml version="1.0" encoding="UTF-8"?>\n<stale/>\n'
+            old.size = len(stale)
+            t.addfile(old, io.BytesIO(stale))
         t.add(src, arcname=os.path.basename(src))
     return dst
 
